@@ -55,6 +55,9 @@ func checkC09(c *Ctx) {
 	c08pipeModel(c, "C09.R8", "C09.R4", "")
 	c.Floor("C09.R8", 4)
 	a.eccentricity()
+	c.Rule("C09.R10", "model evaluation with symbolic parameters: every registered projection whose forward easting has a polar angle N·(λ−λ₀) with N following the standard parallels (a conic) is rebuilt with +lat_2 = +lat_1 and a different +lat_0; N must then be, as a term, the sine of the stored standard parallel — Snyder's cone constant of a single-parallel Lambert, Albers and equidistant conic on sphere and ellipsoid alike (a necessary condition of agreeing with the reference formulas; the radius functions are not compared)")
+	c09coneModel(c, "C09.R10")
+	c.Floor("C09.R10", 3)
 	c.Floor("C09.R7", 4)
 	c.Floor("C09.R6", 1)
 	c.Floor("C09.R1", 60)
